@@ -88,7 +88,7 @@ type peerPlan struct {
 // peerAuth implements RFC 4252 public-key authentication (ssh-ed25519 only)
 // on the server side, verifying the signature with crypto/ed25519 over the
 // session identifier Peer computed itself.
-func peerAuth(p *sshref.Peer, plan *peerPlan, rep *peerReport) error {
+func peerAuth(p peerConn, plan *peerPlan, rep *peerReport) error {
 	pl, err := p.ReadPacket()
 	if err != nil {
 		return err
@@ -159,7 +159,7 @@ func peerAuth(p *sshref.Peer, plan *peerPlan, rep *peerReport) error {
 // peerSession serves one "session" channel: exec <cmd>, collect stdin until
 // EOF (granting window as it consumes), re-key, echo everything back in
 // PRNG-sized chunks with another re-key in the middle, EOF, exit-status, CLOSE.
-func peerSession(p *sshref.Peer, plan *peerPlan, rep *peerReport) error {
+func peerSession(p peerConn, plan *peerPlan, rep *peerReport) error {
 	const ownChan = 5
 	var peerChan, peerWindow, peerMaxPkt uint32
 	window := plan.window
@@ -313,6 +313,25 @@ func servePeer(nc net.Conn, plan *peerPlan) *peerReport {
 		rep.Err = err.Error()
 	}
 	return rep
+}
+
+// serveSteerPeer is servePeer with the endpoint that picks its ephemeral key
+// after it has seen the client's (steer_test.go).
+func serveSteerPeer(nc net.Conn, plan *peerPlan, kex, mode string) (*peerReport, *steerPeer) {
+	rep := &peerReport{}
+	p := newSteerPeer(nc, plan.hostKey, kex, mode)
+	err := p.Handshake()
+	if err == nil {
+		rep.ClientVersion = p.vC
+		err = peerAuth(p, plan, rep)
+	}
+	if err == nil {
+		err = peerSession(p, plan, rep)
+	}
+	if err != nil {
+		rep.Err = err.Error()
+	}
+	return rep, p
 }
 
 // ---- the Go client workload (shared by (a) and (b)) ------------------------------
@@ -722,6 +741,114 @@ func (e *env) runPeerCase(sc subPeerCase, i int64, r *rand.Rand) {
 	m.Distinct(fmt.Sprintf("peer %s %s %s %s size=%s thr=%d win=%d", sc.class, sc.kex, sc.cipher, sc.mac, sizeClass(size), thr, plan.window))
 	if i%17 == 3 {
 		m.Sample(map[string]any{"case": desc, "key_exchanges": len(prep.Kexes), "go_client_exit": crep.Exit, "peer_saw_client_close": prep.SawClientClose})
+	}
+}
+
+// runSteerPeerCase: the Go client against steerPeer, which forces the shape
+// of K at every key exchange of the connection.
+func (e *env) runSteerPeerCase(kex, mode string, i int64, r *rand.Rand) {
+	m := e.m
+	dim := "kex=" + kex + ",K=" + mode
+	size := 20000 + r.IntN(30000)
+	payload := mon.Bytes(r, size)
+	var thr uint64 = 16384
+	if strings.Contains(kex, "nistp384") || strings.Contains(kex, "nistp521") || strings.Contains(kex, "group16") {
+		thr = 0 // expensive searches: only the peer's own re-keys
+	}
+	plan := &peerPlan{hostKey: e.mt.peerHost, clientPub: e.mt.goEd.pub, exit: uint32(r.IntN(256)),
+		rnd: rand.New(rand.NewPCG(r.Uint64(), r.Uint64())), window: 1 << 20, maxPkt: 32768}
+	chunks := chunkSizes(r, size)
+	desc := map[string]any{"part": "go-client->steerPeer (substitute; independent server chooses its key last)", "kex": kex, "shape_of_K": mode, "payload_len": size, "client_rekey_threshold": thr, "exit": plan.exit}
+	ln, err := net.Listen("tcp", "127.0.0.1:0")
+	if err != nil {
+		m.Inconclusive("cannot listen on loopback: " + err.Error())
+		return
+	}
+	defer ln.Close()
+	type srvOut struct {
+		rep *peerReport
+		p   *steerPeer
+	}
+	srvRep := make(chan srvOut, 1)
+	var sconn net.Conn
+	var smu sync.Mutex
+	go func() {
+		nc, err := ln.Accept()
+		if err != nil {
+			srvRep <- srvOut{&peerReport{Err: "accept: " + err.Error()}, &steerPeer{}}
+			return
+		}
+		smu.Lock()
+		sconn = nc
+		smu.Unlock()
+		rep, p := serveSteerPeer(nc, plan, kex, mode)
+		nc.Close()
+		srvRep <- srvOut{rep, p}
+	}()
+	cfg := &ssh.ClientConfig{User: sshUser, Auth: []ssh.AuthMethod{ssh.PublicKeys(e.mt.goEd.signer)},
+		HostKeyCallback: ssh.FixedHostKey(e.mt.peerHostPub), HostKeyAlgorithms: []string{ssh.KeyAlgoED25519}}
+	cfg.KeyExchanges, cfg.Ciphers, cfg.MACs, cfg.RekeyThreshold = []string{kex}, []string{steerCipher}, []string{steerMAC}, thr
+	cconn, err := net.Dial("tcp", ln.Addr().String())
+	if err != nil {
+		m.Inconclusive("cannot dial loopback: " + err.Error())
+		return
+	}
+	var crep clientReport
+	var so srvOut
+	done, pv, pstack, _ := mon.RunTimed(e.watchdog(subWatchdog), func() {
+		crep = goClientCat(cconn, cfg, nil, payload, chunks, workloadHooks{})
+		cconn.Close()
+		so = <-srvRep
+	})
+	if !done {
+		e.subStall("go-client-vs-steered-peer", dim, desc)
+		cconn.Close()
+		smu.Lock()
+		if sconn != nil {
+			sconn.Close()
+		}
+		smu.Unlock()
+		return
+	}
+	if pv != nil {
+		m.Violation("panic:"+mon.PanicSite(pstack), map[string]any{"case": desc, "panic": fmt.Sprint(pv), "stack": pstack})
+		return
+	}
+	m.Eval()
+	prep, sp := so.rep, so.p
+	m.Count("sub_steer_peer_connections", 1)
+	bad := func(kind string) {
+		m.Violation("go-client-vs-steered-peer:"+kind+":"+dim, map[string]any{"case": desc, "payload_hex": mon.Hex(payload),
+			"go_client":  fmt.Sprintf("dialErr=%q sessionErr=%q out=%d bytes exit=%d algs=%+v", crep.DialErr, crep.SessionErr, len(crep.Out), crep.Exit, crep.Algs),
+			"steer_peer": fmt.Sprintf("err=%q stdin=%d bytes cmd=%q kexes=%d shapes=%v tries=%d sigOK=%v", prep.Err, len(prep.Stdin), prep.Cmd, sp.Kexes, sp.Shapes, sp.Tries, prep.SigOK)})
+	}
+	switch {
+	case crep.DialErr != "" && sp.Kexes == 0:
+		bad("handshake")
+		return
+	case crep.DialErr != "":
+		bad("auth")
+		return
+	case prep.Err != "" || crep.SessionErr != "":
+		bad("session")
+		return
+	case !prep.SigOK || prep.Cmd != "cat" || !bytes.Equal(prep.Stdin, payload) || !bytes.Equal(crep.Out, payload) || crep.Exit != int(plan.exit):
+		bad("data-or-status")
+		return
+	case crep.Algs == nil || crep.Algs.KeyExchange != kex:
+		bad("go-algorithms-differ")
+		return
+	}
+	m.Count("sub_steer_peer_ok", 1)
+	m.Count("sub_steer_peer_candidates_tried", sp.Tries)
+	m.Count("sub_steer_peer_exchanges_"+mode, sp.Steered)
+	m.Count(fmt.Sprintf("sub steered %s kex %s", mode, kex), sp.Steered)
+	if sp.Steered >= 1 {
+		m.Count("sub_steer_peer_cases_"+mode, 1)
+	}
+	m.Distinct(fmt.Sprintf("steerpeer %s %s thr=%d", kex, mode, thr))
+	if i%5 == 0 {
+		m.Sample(map[string]any{"case": desc, "key_exchanges": sp.Kexes, "shapes_of_K": sp.Shapes, "candidates_tried": sp.Tries})
 	}
 }
 
@@ -1163,6 +1290,22 @@ func (e *env) runSubstitutes() {
 		pp = nil
 	}
 	m.Cases("sub-peer", len(pp), func(i int64, r *rand.Rand) { e.runPeerCase(pp[i], i, r) })
+
+	// (a') Go client -> steerPeer: shape of K forced at every exchange
+	type steerCase struct{ kex, mode string }
+	var sp []steerCase
+	for _, k := range steerPeerKex {
+		if slices.Contains(goKex, k) {
+			sp = append(sp, steerCase{k, "lz"}, steerCase{k, "hb"})
+		}
+	}
+	nsp := len(sp) / 2
+	if parts != "" && !strings.Contains(parts, "steer") {
+		sp = nil
+	}
+	m.Cases("sub-steer-peer", len(sp), func(i int64, r *rand.Rand) { e.runSteerPeerCase(sp[i].kex, sp[i].mode, i, r) })
+	m.Gate("sub_steer_peer_cases_lz", nsp, "substitute: Go client sessions against the independent server in which K was forced to start with 00 + byte < 0x80, per kex (curve25519 x2, ECDH P-256/384/521, DH group1/14/16)")
+	m.Gate("sub_steer_peer_cases_hb", nsp, "substitute: Go client sessions against the independent server in which K was forced to have its top bit set, per kex")
 
 	// (b) Go client <-> Go server, tapped
 	var tp []subTapCase
